@@ -297,7 +297,35 @@ fn explain_case(cx: &mut Ctx, prog: &pipe::Prog) {
     }
 }
 
+/// GBK followed by a lifted combine with an APPROXIMATE combiner (t-digest quantiles): the lift pass
+/// replaces `build_from_group` (adds + a final compress) by element-wise adds. Oracle only: literal
+/// chain vs optimised chain on the real engine, compared exactly.
+fn approx_lift_case(cx: &mut Ctx, n: usize, compression: f64) {
+    use ironbeam::combiners::ApproxQuantiles;
+    let rows: Vec<(i64, f64)> = (0..n).map(|i| ((i % 3) as i64, ((i * 7919) % 1000) as f64 / 8.0)).collect();
+    let p = Pipeline::default();
+    let out = from_vec(&p, rows).group_by_key().combine_values_lifted(ApproxQuantiles::<f64>::new(vec![0.1, 0.5, 0.9], compression));
+    let id = out.node_id();
+    let run = |optimise: bool| -> String {
+        let chain = match pv::backwalk(&p, id) { Ok(c) => c, Err(e) => return format!("ERR {e}") };
+        let chain = if optimise { real_optimise(chain) } else { chain };
+        match guarded(move || rv::exec_seq::<(i64, Vec<f64>)>(chain)) {
+            Ok(Ok(mut rows)) => { rows.sort_by_key(|r| r.0); rows.iter().map(|(k, qs)| format!("{k}:{}", qs.iter().map(|q| format!("{q:?}")).collect::<Vec<_>>().join("/"))).collect::<Vec<_>>().join(",") }
+            Ok(Err(e)) => format!("ERR {e}"),
+            Err(_) => "PANIC".into(),
+        }
+    };
+    let lit = run(false);
+    let opt = run(true);
+    let idx = cx.case(format!("ORACLE-ONLY approx-lift n={n} compression={compression}"), "-".into(), true);
+    cx.count("plan:approx-lift");
+    if lit != opt {
+        cx.oracle_fail(idx, "lift-changes-approximate-combiner-result", format!("literal={lit} optimised={opt}"));
+    }
+}
+
 pub fn run(cx: &mut Ctx) {
+    for (n, c) in [(12usize, 100.0), (300, 20.0), (2000, 20.0), (5000, 50.0)] { approx_lift_case(cx, n, c); }
     // corpus: the shapes the property names
     let op = |code, arg, kp, vo, rs, cost| OpDesc { code, arg, kp, vo, rs, cost, defaulting: false };
     let dop = |code, arg, cost| OpDesc { code, arg, kp: true, vo: true, rs: false, cost, defaulting: true };
